@@ -338,13 +338,25 @@ func TestLimit(t *testing.T) {
 			Yields:  rapid.SliceOfN(rapid.IntRange(0, 4), 1, 4).Draw(t, "yields"),
 			Procs:   rapid.SampledFrom([]int{1, 2, 4, 16}).Draw(t, "gomaxprocs"),
 		}
+		exact := rapid.IntRange(0, 3).Draw(t, "exactShape") == 0
+		if exact {
+			// as many calls as the limit allows, from many goroutines at
+			// once and without pauses: every call has to claim a slot
+			c.Callers = rapid.SampledFrom([]int{4, 8, 16}).Draw(t, "manyCallers")
+			c.Calls = rapid.IntRange(200, 3000).Draw(t, "manyCalls")
+			c.N = c.Callers*c.Calls - rapid.SampledFrom([]int{0, 0, 1, 7}).Draw(t, "slack")
+			c.Yields = []int{0}
+			if c.Procs == 1 {
+				c.Procs = 8
+			}
+		}
 		for i := 0; i < reps; i++ {
 			if why := runLimit(c); why != "" {
 				vkit.Fail(t, tLimit, "C15:limit/"+c.Kind, *c, "%s (repetition %d)", why, i)
 			}
 		}
 		total := c.Callers * c.Calls
-		vkit.CaseN(tLimit, vkit.Hash(*c), reps, total > c.N && c.Callers >= 2, []string{"kind:" + c.Kind, fmt.Sprintf("calls>n:%v", total > c.N)}, func() any { return *c })
+		vkit.CaseN(tLimit, vkit.Hash(*c), reps, total > c.N && c.Callers >= 2, []string{"kind:" + c.Kind, fmt.Sprintf("calls>n:%v", total > c.N), fmt.Sprintf("exact-shape:%v", exact)}, func() any { return *c })
 	})
 }
 
@@ -608,9 +620,9 @@ func TestRetry(t *testing.T) {
 const tHooks = "TestHookOrder"
 
 type hookCase struct {
-	Kind  string   `json:"kind"`  // Worker | Operation | Processor | Handler | Producer | Future
-	Stack []string `json:"stack"` // applied in order: join | pre | post
-	FailAt int     `json:"fail_at"` // the part (in execution order) that fails, -1: none (Worker / Processor joins stop there)
+	Kind   string   `json:"kind"`    // Worker | Operation | Processor | Handler | Producer | Future
+	Stack  []string `json:"stack"`   // applied in order: join | pre | post
+	FailAt int      `json:"fail_at"` // the part (in execution order) that fails, -1: none (Worker / Processor joins stop there)
 }
 
 func runHooks(c *hookCase) string {
@@ -793,6 +805,7 @@ type waiterCase struct {
 	N       int    `json:"n"` // group size for StartGroup
 	Fails   bool   `json:"fails"`
 	Waiters int    `json:"waiters"`
+	Abandon int    `json:"abandoned_waits,omitempty"` // waits given up (own context cancelled) before the real ones
 	Yields  []int  `json:"yields"`
 	Procs   int    `json:"gomaxprocs"`
 }
@@ -817,18 +830,21 @@ func runWaiters(c *waiterCase) string {
 	body := func() { <-gate; vkit.Yield(c.Yields[0]); finished.Add(1) }
 	w := fun.Worker(func(context.Context) error { body(); return berr })
 	o := fun.Operation(func(context.Context) { body() })
-	var wait func() error // blocks until the background execution is complete
+	// waitWith blocks (with the given context) until the background
+	// execution is complete; nil for the kinds whose waiter takes no context
+	var waitWith func(context.Context) error
+	var wait func() error
 	checkErr := false
 	switch c.Kind {
 	case "Operation.Launch":
 		waiter := o.Launch(ctx)
-		wait = func() error { waiter(ctx); return nil }
+		waitWith = func(wctx context.Context) error { waiter(wctx); return nil }
 	case "Operation.Signal":
 		sig := o.Signal(ctx)
 		wait = func() error { <-sig; return nil }
 	case "Worker.Launch":
 		waiter := w.Launch(ctx)
-		wait = func() error { return waiter(ctx) }
+		waitWith = func(wctx context.Context) error { return waiter(wctx) }
 		checkErr = c.Waiters == 1
 	case "Worker.Signal":
 		sig := w.Signal(ctx)
@@ -838,27 +854,49 @@ func runWaiters(c *waiterCase) string {
 		var got error
 		var mu sync.Mutex
 		waiter := w.Background(ctx, func(err error) { mu.Lock(); got = ers.Join(got, err); mu.Unlock() })
-		wait = func() error { waiter(ctx); mu.Lock(); defer mu.Unlock(); return got }
+		waitWith = func(wctx context.Context) error { waiter(wctx); mu.Lock(); defer mu.Unlock(); return got }
 		checkErr = c.Waiters == 1
 	case "Worker.StartGroup":
 		waiter := w.StartGroup(ctx, n)
-		wait = func() error { return waiter(ctx) }
+		waitWith = func(wctx context.Context) error { return waiter(wctx) }
 		checkErr = true
 	case "Operation.StartGroup":
 		wg := &fun.WaitGroup{}
 		o.StartGroup(ctx, wg, n)
-		wait = func() error { wg.Wait(ctx); return nil }
+		waitWith = func(wctx context.Context) error { wg.Wait(wctx); return nil }
 	case "Producer.Launch":
 		p := fun.Producer[int](func(context.Context) (int, error) { body(); return 5, io.EOF }).Launch(ctx)
-		wait = func() error { _, _ = p(ctx); return nil }
+		waitWith = func(wctx context.Context) error { _, _ = p(wctx); return nil }
 	case "Producer.Background":
 		waiter := fun.Producer[int](func(context.Context) (int, error) { body(); return 5, berr }).Background(ctx, func(int) {})
-		wait = func() error { return waiter(ctx) }
+		waitWith = func(wctx context.Context) error { return waiter(wctx) }
 		checkErr = c.Waiters == 1
 	case "Processor.Background":
 		waiter := fun.Processor[int](func(context.Context, int) error { body(); return berr }).Background(ctx, 3)
-		wait = func() error { return waiter(ctx) }
+		waitWith = func(wctx context.Context) error { return waiter(wctx) }
 		checkErr = c.Waiters == 1
+	}
+	if waitWith != nil {
+		wait = func() error { return waitWith(ctx) }
+		// abandoned waits first: a wait whose own context ends before the
+		// background execution has finished returns (with whatever it
+		// likes) and must leave the waiter usable - the later waits with a
+		// live context still wait for the execution and get its result
+		for k := 0; k < c.Abandon; k++ {
+			actx, acancel := context.WithCancel(context.Background())
+			if k%2 == 1 {
+				acancel() // already over when the wait starts
+			}
+			ret := make(chan struct{})
+			go func() { _ = waitWith(actx); close(ret) }()
+			vkit.Yield(c.Yields[k%len(c.Yields)])
+			acancel()
+			select {
+			case <-ret:
+			case <-time.After(vkit.Limit()):
+				return fmt.Sprintf("%s: a wait is still blocked %v after its own context was cancelled", c.Kind, vkit.Limit())
+			}
+		}
 	}
 	bad := make(chan string, c.Waiters+1)
 	var wg sync.WaitGroup
@@ -874,7 +912,10 @@ func runWaiters(c *waiterCase) string {
 			if checkErr && berr != nil && !errors.Is(err, berr) {
 				bad <- fmt.Sprintf("%s: the waiter returned %v, the background execution failed with %v", c.Kind, err, berr)
 			}
-			if checkErr && berr == nil && err != nil {
+			// (the observer of Worker.Background also receives the context
+			// error of every abandoned wait: only then a non-nil result of
+			// a successful execution is expected)
+			if checkErr && berr == nil && err != nil && !(c.Kind == "Worker.Background" && c.Abandon > 0) {
 				bad <- fmt.Sprintf("%s: the waiter returned %v, the background execution succeeded", c.Kind, err)
 			}
 		}(i)
@@ -923,6 +964,7 @@ func TestWaiters(t *testing.T) {
 			N:       rapid.IntRange(1, 5).Draw(t, "n"),
 			Fails:   rapid.Bool().Draw(t, "fails"),
 			Waiters: rapid.IntRange(1, 3).Draw(t, "waiters"),
+			Abandon: rapid.SampledFrom([]int{0, 0, 1, 2}).Draw(t, "abandon"),
 			Yields:  rapid.SliceOfN(rapid.IntRange(0, 4), 1, 4).Draw(t, "yields"),
 			Procs:   rapid.SampledFrom([]int{1, 2, 4, 16}).Draw(t, "gomaxprocs"),
 		}
